@@ -67,9 +67,9 @@ PROPS.update({
     },
     "C07": {
         "level": "exploration",
-        "parts": [{"engine": "integ", "profile": "c07", "weight": 1}],
-        "rule": "indices 0..1535: every exit status 0..255 at each of 3 command positions, with and without allow_failure, directly or as a stage; beyond: random C06-style worlds with more failures. Oracle: Task.Errored/ExitCode/Skipped, error returned by Run/Schedule and stage statuses == model. distinct = canonical event-log hash; non-trivial = >=2 processes alive together or >=1 non-zero exit",
-        "assumptions": _INTEG_ASSUME + ["CLI part (argv order, process exit status) is covered by the CLI profile once built"],
+        "parts": [{"engine": "integ", "profile": "c07", "weight": 2}, {"engine": "cli", "profile": "cli", "weight": 1}],
+        "rule": "indices 0..1535: every exit status 0..255 at each of 3 command positions, with and without allow_failure, directly or as a stage; beyond: random C06-style worlds with more failures. Oracle: Task.Errored/ExitCode/Skipped, error returned by Run/Schedule and stage statuses == model. CLI part: generated configuration file + argv of 1..4 targets (tasks and pipelines in any order, root action or `run`, optional `-- args` containing a task name) through the in-process command line: targets execute in argv order without overlap, nothing of a later target starts after the first failing one, error returned iff a target failed, unrequested tasks never run. distinct = canonical event-log hash; non-trivial = >=2 processes alive together or >=1 non-zero exit",
+        "assumptions": _INTEG_ASSUME + ["CLI part: entered at makeApp().Run(argv) in-process; main()'s error -> exit status 1 mapping (5 lines) is not executed"],
     },
     "C11": {
         "level": "exploration",
@@ -104,8 +104,8 @@ PROPS.update({
     },
     "C14": {
         "level": "exploration",
-        "parts": [{"engine": "fault", "profile": "c14", "weight": 1}],
-        "rule": "worlds: 1..3 contexts with 0..2 up/down/before/after service commands (up fails with p=0.1 per command), 1..5 (thorough 8) tasks spread over them with/without before/after/condition/allow_failure and failing commands, started simultaneously, one after another, or as parallel/chained stages; Finish called once or twice. Schedule space: which goroutine parked at Run entry / Up entry / inside a command proceeds next, including releasing further tasks into Up() while `up` is still running (limbo fast-forward). distinct = canonical event-log hash; all runs non-trivial",
+        "parts": [{"engine": "fault", "profile": "c14", "weight": 2}, {"engine": "cli", "profile": "cli", "weight": 1}],
+        "rule": "worlds: 1..3 contexts with 0..2 up/down/before/after service commands (up fails with p=0.1 per command), 1..5 (thorough 8) tasks spread over them with/without before/after/condition/allow_failure and failing commands, started simultaneously, one after another, or as parallel/chained stages; Finish called once or twice; CLI part: the CLI worlds of C07 with 0..2 contexts (down exactly once at shutdown, after all tasks of all targets, for used contexts, whether the targets succeeded or failed). Schedule space: which goroutine parked at Run entry / Up entry / inside a command proceeds next, including releasing further tasks into Up() while `up` is still running (limbo fast-forward). distinct = canonical event-log hash; all runs non-trivial",
         "assumptions": _INTEG_ASSUME + ["a skipped task may have zero or one before/after hook block; a context whose up failed may or may not get its down commands (statement silent)", "context hook commands are attributed to task executions by goroutine id"],
     },
     "C13": {
@@ -134,7 +134,7 @@ _TXT.update({
     "C08": ("exploration", "Real config loader + scheduler + runner over one shared task object; what every simulated process actually receives (env, argv, dir) is compared with 'task settings overlaid by this stage's overrides' for overlapping and sequential stages, a second pipeline and a direct run.", "sampled configurations and schedules"),
     "C19": ("exploration", "The real decorators and TaskOutput tee receive seeded streams in seeded chunkings from up to 8 interleaved simulated processes; the recording sink is compared with a stripping model write by write; each world is repeated under the three formats and the recorded task results must agree; a panic in the output layer kills the worker and is attributed to the seed.", "reference CSI stripper covers the generated well-formed sequences only; comparison uses the reading most favourable to the implementation (terminators removed before sequences)"),
     "C20": ("exploration", "The real watcher loop, event filter, handle() and TaskRunner run on the fake clock against injected event histories; what the simulated task processes receive (EventName/EventPath) decides. The path-selection half of the statement is a pure function and is checked as a set-up invariant against a reference glob matcher on every generated tree.", "event delivery by the kernel is stubbed; the reference matcher covers the generated pattern grammar only"),
-    "C14": ("exploration", "Hook exec history per context compared with the statement: up once and finished before anything else of the context (also for tasks racing into Up while it runs), before/after exactly once around each task execution (per-goroutine pattern), down once at Finish for used contexts only.", "sampled worlds and schedules; CLI part (Finish on failed targets) covered by the CLI profile"),
+    "C14": ("exploration", "Hook exec history per context compared with the statement: up once and finished before anything else of the context (also for tasks racing into Up while it runs), before/after exactly once around each task execution (per-goroutine pattern), down once at Finish for used contexts only.", "sampled worlds and schedules"),
     "C13": ("fault_enumeration", "The overrunning command is placed at every position of each sampled task under six process shapes; deadlines are compared exactly on the fake clock (start+timeout per command).", "positions x shapes are enumerated per sampled task; tasks and timeouts are sampled"),
 })
 for _k, (_lvl, _t, _n) in _TXT.items():
